@@ -41,6 +41,8 @@ def base_op(*args, **kw):
     val = sum((i + 1) * _num(a) for i, a in enumerate(args)) + (_num(kw['k']) if 'k' in kw else 0.0)
     if ret == 'scalar':
         return val
+    if ret == 'mixed':       # the Python type of the result differs between rows (an int for some rows, a float for others)
+        return int(val) if int(val) % 2 == 0 else val + 0.25
     if ret == 'array':
         return np.array([val, 2 * val, -val])
     if ret == 'tuple':
@@ -82,7 +84,7 @@ def strat_vectorize(tier):
         'arity': st.just(arity),
         'calls': st.lists(call_spec(arity), min_size=1, max_size=3),
         'dtype': st.sampled_from(['none', 'float', 'int', 'false']),
-        'ret': st.sampled_from(['scalar', 'scalar', 'array', 'tuple', 'ragged']),
+        'ret': st.sampled_from(['scalar', 'scalar', 'mixed', 'array', 'tuple', 'ragged']),
         'explicit_mask': st.booleans(),
         'mask_type': st.sampled_from(['list', 'tuple']),
     }))
@@ -236,6 +238,7 @@ def strat_external(tier):
         'sep': st.sampled_from([' ', ',', ';']),
         'cmd': st.sampled_from(['echo', 'printf']),
         'dtype': st.sampled_from([None, 'int64', 'float64', 'int32', 'uint64']),
+        'dtype_form': st.sampled_from(['str', 'str', 'np.dtype']),      # the documented spellings of a result type
         # positional values incl. 64-bit ids / timestamps that a float cannot hold exactly (only with a 64-bit integer result type)
         'a0': st.one_of(st.integers(0, 1000), st.sampled_from([2 ** 53 + 1, 2 ** 62 + 12345, 2 ** 63 - 1])),
         'a1': st.integers(0, 1000), 'kwa': st.integers(0, 1000),
@@ -261,9 +264,9 @@ def run_external(case):
         case = dict(case, a0=case['a0'] - 8)             # room for the per-row offsets
     np_dtype = np.dtype(dtype) if dtype else np.dtype(float)
     with must_not_raise(P, 'external_operation(%r)' % command):
-        op = external_operation(command, process_result=dtype, sep=sep)
+        op = external_operation(command, process_result=(np.dtype(dtype) if (dtype and case.get('dtype_form') == 'np.dtype') else dtype), sep=sep)
     bs = case['bs']
-    ctx = 'command=%r dtype=%r mode=%s state_seed=%d bs=%d' % (command, dtype, case['mode'], case['state_seed'], bs)
+    ctx = 'command=%r dtype=%r (given as %s) mode=%s state_seed=%d bs=%d' % (command, dtype, case.get('dtype_form', 'str'), case['mode'], case['state_seed'], bs)
 
     def expected(a0, a1, seed, index, batch_index):
         sub = {'{0}': a0, '{1}': a1, '{kwa}': case['kwa'], '{seed}': seed, '{batch_size}': bs,
